@@ -244,16 +244,25 @@ fn second[T](x: T, n: int32) -> int32 { n }
 fn main() {
     let a: ((int32, int32), int32, int32) = ((1, 2), 3, 4);
     let b: ((int32, int32, int32), int32) = ((5, 6, 7), 8);
-    let a2 = keep(a);
-    let b2 = keep(b);
-    let _ = string_println(int32_to_string((a2.0).1 + a2.2));
-    let _ = string_println(int32_to_string((b2.0).2 + b2.1));
+    let a2: ((int32, int32), int32, int32) = keep(a);
+    let b2: ((int32, int32, int32), int32) = keep(b);
+    let a20: (int32, int32) = a2.0;
+    let b20: (int32, int32, int32) = b2.0;
+    let _ = string_println(int32_to_string(a20.1 + a2.2));
+    let _ = string_println(int32_to_string(b20.2 + b2.1));
     let va: Vec[((int32, int32), int32, int32)] = vec_push(vec_new(), a);
     let vb: Vec[((int32, int32, int32), int32)] = vec_push(vec_new(), b);
-    let _ = string_println(int32_to_string(vec_len(keep(va)) + vec_len(keep(vb)) + second(va, 1) + second(vb, 2)));
+    let va2: Vec[((int32, int32), int32, int32)] = keep(va);
+    let vb2: Vec[((int32, int32, int32), int32)] = keep(vb);
+    let _ = string_println(int32_to_string(vec_len(va2) + vec_len(vb2) + second(va, 1) + second(vb, 2)));
     let ra: Ref[(int32, (int32, int32))] = ref((1, (2, 3)));
     let rb: Ref[((int32, int32), int32)] = ref(((4, 5), 6));
-    let _ = string_println(int32_to_string((ref_get(keep(ra)).1).0 + ref_get(keep(rb)).1));
+    let ra2: Ref[(int32, (int32, int32))] = keep(ra);
+    let rb2: Ref[((int32, int32), int32)] = keep(rb);
+    let x: (int32, (int32, int32)) = ref_get(ra2);
+    let y: ((int32, int32), int32) = ref_get(rb2);
+    let x1: (int32, int32) = x.1;
+    let _ = string_println(int32_to_string(x1.0 + y.1));
     ()
 }
 "#, "6\n15\n5\n8\n"),
@@ -463,6 +472,15 @@ impl ProgCheck {
                 // crashes are C04's subject; here the case cannot be judged
                 let _ = pn;
                 CaseOut::discard("compiler-panic")
+            }
+            CompileRes::Err(e) if labels_in.contains("directed") => {
+                // hand-written programs are well-formed: a rejection is a failure of this phase
+                CaseOut::fail(
+                    format!("{}|directed|rejected", self.id),
+                    format!("{:?}\n--- goml source\n{text}", goml::diag_messages(e.diagnostics())),
+                    key,
+                )
+                .labelled(labels)
             }
             CompileRes::Err(e) => {
                 let msgs = goml::diag_messages(e.diagnostics());
